@@ -1,4 +1,199 @@
-pub fn run(_args: &[String]) -> i32 {
-    eprintln!("not implemented");
-    2
+use std::path::Path;
+use std::time::Duration;
+
+use ast::ast as A;
+use parser::event::Event;
+use serde_json::{Value, json};
+
+use crate::util::{Guarded, diag_json, emit, guarded, read_requests, strip_repo};
+
+/// request: {"id":.., "text":"..." | "bytes":[..], "mode":"ast"|"cst"}
+/// ast: {"verdict": ok|parser|lower, "fns": {name: expr}, "diags":[..]}
+/// cst: tokens, parser events, tree leaves, text of the tree, diagnostics, second-parse equality
+pub fn run(args: &[String]) -> i32 {
+    for req in read_requests(args) {
+        let id = req.get("id").cloned().unwrap_or(Value::Null);
+        let text: String = if let Some(b) = req.get("bytes").and_then(|b| b.as_array()) {
+            let bytes: Vec<u8> = b.iter().map(|x| x.as_u64().unwrap_or(0) as u8).collect();
+            match String::from_utf8(bytes) {
+                Ok(s) => s,
+                Err(_) => {
+                    emit(&json!({"id": id, "verdict": "not-utf8"}));
+                    continue;
+                }
+            }
+        } else {
+            req["text"].as_str().unwrap_or("").to_string()
+        };
+        let mode = req["mode"].as_str().unwrap_or("ast").to_string();
+        let r = guarded(Duration::from_secs(10), move || {
+            if mode == "cst" { cst(&text) } else { ast_mode(&text) }
+        });
+        let mut out = match r {
+            Guarded::Done(v) => v,
+            Guarded::Panic { msg, at } => {
+                json!({"verdict": "panic", "msg": msg, "at": strip_repo(&at)})
+            }
+            Guarded::Timeout => json!({"verdict": "timeout"}),
+        };
+        out["id"] = id;
+        emit(&out);
+    }
+    0
+}
+
+fn ast_mode(text: &str) -> Value {
+    let path = Path::new("/nonexistent/main.gom");
+    match compiler::pipeline::pipeline::parse_ast_file(path, text) {
+        Ok(file) => {
+            let mut fns = serde_json::Map::new();
+            for item in file.toplevels.iter() {
+                if let A::Item::Fn(f) = item {
+                    fns.insert(f.name.0.clone(), expr(&f.body));
+                }
+            }
+            json!({"verdict": "ok", "fns": fns})
+        }
+        Err(e) => {
+            let d: Vec<Value> = e.diagnostics().iter().map(diag_json).collect();
+            let verdict = match e {
+                compiler::pipeline::pipeline::CompilationError::Parser { .. } => "parser",
+                _ => "lower",
+            };
+            json!({"verdict": verdict, "diags": d})
+        }
+    }
+}
+
+fn path_str(p: &A::Path) -> String {
+    p.segments
+        .iter()
+        .map(|s| s.ident.0.clone())
+        .collect::<Vec<_>>()
+        .join("::")
+}
+
+fn lit(kind: &str, ty: &str, v: &str) -> Value {
+    json!({"k": kind, "ty": ty, "v": v})
+}
+
+pub fn expr(e: &A::Expr) -> Value {
+    use A::Expr::*;
+    match e {
+        EPath { path, .. } => json!({"k": "path", "p": path_str(path)}),
+        EUnit { .. } => json!({"k": "unit"}),
+        EBool { value, .. } => json!({"k": "bool", "v": value}),
+        EInt { value, .. } => lit("int", "", value),
+        EInt8 { value, .. } => lit("int", "int8", value),
+        EInt16 { value, .. } => lit("int", "int16", value),
+        EInt32 { value, .. } => lit("int", "int32", value),
+        EInt64 { value, .. } => lit("int", "int64", value),
+        EUInt8 { value, .. } => lit("int", "uint8", value),
+        EUInt16 { value, .. } => lit("int", "uint16", value),
+        EUInt32 { value, .. } => lit("int", "uint32", value),
+        EUInt64 { value, .. } => lit("int", "uint64", value),
+        EFloat { value, .. } => json!({"k": "float", "ty": "", "v": format!("{:?}", value)}),
+        EFloat32 { value, .. } => lit("float", "float32", value),
+        EFloat64 { value, .. } => lit("float", "float64", value),
+        EString { value, .. } => json!({"k": "str", "bytes": value.as_bytes()}),
+        EConstr {
+            constructor, args, ..
+        } => json!({"k": "constr", "p": path_str(constructor), "as": args.iter().map(expr).collect::<Vec<_>>()}),
+        EStructLiteral { name, fields, .. } => json!({"k": "struct", "p": path_str(name),
+            "fs": fields.iter().map(|(f, e)| json!({"f": f.0, "e": expr(e)})).collect::<Vec<_>>()}),
+        ETuple { items, .. } => json!({"k": "tuple", "es": items.iter().map(expr).collect::<Vec<_>>()}),
+        EArray { items, .. } => json!({"k": "array", "es": items.iter().map(expr).collect::<Vec<_>>()}),
+        ELet { pat, value, annotation, .. } => {
+            json!({"k": "let", "p": pat_json(pat), "ann": annotation.is_some(), "e": expr(value)})
+        }
+        EClosure { params, body, .. } => json!({"k": "lam",
+            "ps": params.iter().map(|p| p.name.0.clone()).collect::<Vec<_>>(), "b": expr(body)}),
+        EMatch { expr: e, arms, .. } => json!({"k": "match", "e": expr(e),
+            "arms": arms.iter().map(|a| json!({"p": pat_json(&a.pat), "b": expr(&a.body)})).collect::<Vec<_>>()}),
+        EIf {
+            cond,
+            then_branch,
+            else_branch,
+            ..
+        } => json!({"k": "if", "c": expr(cond), "t": expr(then_branch), "e": expr(else_branch)}),
+        EWhile { cond, body, .. } => json!({"k": "while", "c": expr(cond), "b": expr(body)}),
+        EGo { expr: e, .. } => json!({"k": "go", "e": expr(e)}),
+        ECall { func, args, .. } => {
+            json!({"k": "call", "f": expr(func), "as": args.iter().map(expr).collect::<Vec<_>>()})
+        }
+        EUnary { op, expr: e, .. } => json!({"k": "un", "op": op.symbol(), "e": expr(e)}),
+        EBinary { op, lhs, rhs, .. } => {
+            json!({"k": "bin", "op": op.symbol(), "l": expr(lhs), "r": expr(rhs)})
+        }
+        EProj { tuple, index, .. } => json!({"k": "proj", "e": expr(tuple), "i": index}),
+        EField { expr: e, field, .. } => json!({"k": "field", "e": expr(e), "f": field.0}),
+        EBlock { exprs, .. } => json!({"k": "block", "es": exprs.iter().map(expr).collect::<Vec<_>>()}),
+    }
+}
+
+fn pat_json(p: &A::Pat) -> Value {
+    // patterns are exported through their Debug rendering with syntax pointers removed (enough for equality checks)
+    let s = format!("{:?}", p);
+    let mut out = String::new();
+    let mut rest = s.as_str();
+    while let Some(i) = rest.find("astptr:") {
+        out.push_str(&rest[..i]);
+        // skip to the matching close of the pointer value: "astptr: SyntaxNodePtr { kind: .., range: a..b }"
+        let tail = &rest[i..];
+        let end = tail.find('}').map(|j| j + 1).unwrap_or(tail.len());
+        rest = &tail[end..];
+    }
+    out.push_str(rest);
+    Value::from(out)
+}
+
+fn cst(text: &str) -> Value {
+    let path = Path::new("/nonexistent/main.gom");
+    let toks = lexer::lex(text);
+    let tokens: Vec<Value> = toks
+        .iter()
+        .map(|t| {
+            json!({"k": format!("{:?}", t.kind), "s": u32::from(t.range.start()), "e": u32::from(t.range.end()),
+                   "triv": t.kind.is_trivia(), "textlen": t.text.len()})
+        })
+        .collect();
+    let mut p = parser::parser::Parser::new(path, toks);
+    parser::file::file(&mut p);
+    let events: Vec<Value> = p
+        .events
+        .iter()
+        .map(|e| match e {
+            Event::Open {
+                kind,
+                forward_parent,
+            } => json!({"ev": "open", "kind": format!("{:?}", kind), "fp": forward_parent}),
+            Event::Close => json!({"ev": "close"}),
+            Event::Advance => json!({"ev": "adv"}),
+            Event::Error(_) => json!({"ev": "err"}),
+        })
+        .collect();
+    let res = p.build_tree();
+    let root = parser::syntax::MySyntaxNode::new_root(res.green_node.clone());
+    let tree_text = root.text().to_string();
+    let mut leaves = Vec::new();
+    let mut nodes_ok = true;
+    let len = text.len() as u32;
+    for el in root.descendants_with_tokens() {
+        let r = el.text_range();
+        if u32::from(r.end()) > len || u32::from(r.start()) > u32::from(r.end()) {
+            nodes_ok = false;
+        }
+        if let Some(t) = el.as_token() {
+            leaves.push(json!({"k": format!("{:?}", t.kind()), "s": u32::from(r.start()), "e": u32::from(r.end())}));
+        }
+    }
+    let diags: Vec<Value> = res.diagnostics.iter().map(diag_json).collect();
+    // second parse of the same text
+    let res2 = parser::parse(path, text);
+    let same = format!("{:?}", res.green_node) == format!("{:?}", res2.green_node)
+        && res.diagnostics.len() == res2.diagnostics.len();
+    let boundaries: Vec<bool> = (0..=text.len()).map(|i| text.is_char_boundary(i)).collect();
+    json!({"verdict": "ok", "len": len, "tokens": tokens, "events": events, "leaves": leaves,
+           "tree_text_equal": tree_text == text, "tree_text_len": tree_text.len(), "nodes_in_text": nodes_ok,
+           "diags": diags, "twice_equal": same, "char_boundary": boundaries})
 }
